@@ -4,7 +4,7 @@
 #[verifier::exec_allows_no_decreases_clause]
 #[verifier::loop_isolation(false)]
 pub fn main_loop(mut tasks: JoinSetS, ev_s: EvTx, env: &mut MEnv) -> (r: Result<(), CriticalError>)
-    requires !old(env).action_ended@, !old(env).shut_down@, !old(env).crit_seen@,
+    requires !old(env).action_ended@, !old(env).shut_down@, !old(env).crit_seen@, !old(env).exit_seen@,
     ensures
         // a critical error raised by any worker (other than the graceful-exit request) ends the main task with that error
         r is Err ==> !(r->Err_0 is Exit), // OBL:C15.main_task.ends_with_the_critical_error_raised
@@ -16,4 +16,6 @@ invariant
     !env.action_ended@, !env.shut_down@, // OBL:C08.main_task.ends_as_soon_as_the_action_worker_returns
     // the loop never goes on after a worker has raised a critical error
     !env.crit_seen@, // OBL:C15.main_task.ends_with_the_critical_error_raised
+    // a graceful-exit request raised through the error path closes the event queue, which ends the action worker and with it the main task
+    env.exit_seen@ ==> env.events_closed@, // OBL:C15+C08.main_task.a_graceful_exit_request_closes_the_event_queue
 //@ end
